@@ -201,6 +201,28 @@ def hostile_names(run, drv, rng):
             run.case(["name", name, ver], True, sample=case, classes=["hostile-name"])
 
 
+def empty_payloads(run, drv, rng):
+    """Metafiles of payloads without a single byte (empty pieces string, no pieces root):
+    they still have an info dictionary, so the URI must carry its hash(es)."""
+    from harness.common import write_tree
+    for ver, kind in ((1, "v1"), (2, "a2"), (2, "v2"), (3, "a3"), (3, "hy")):
+        for single in (False, True):
+            with sandbox("c11e") as box:
+                root = os.path.join(box, "nothing")
+                write_tree(box if single else root, [("nothing" if single else "d/e", b"")] +
+                           ([] if single else [("z", b"")]))
+                out = os.path.join(box, "o.torrent")
+                case = {"source": "own-empty-payload", "creator": kind, "single": single, "version": ver}
+                try:
+                    raw = impl.create(kind, root, out, piece_length=16384, announce=[rng.choice(metas.URLS)])
+                except Exception:
+                    continue        # whether an empty payload can be created is not C11's business
+                for version in (0, 1, 2, 3):
+                    if satisfiable(raw, version):
+                        judge(run, drv, case, raw, out, version)
+                run.case(["empty", kind, single], True, sample=case, classes=["empty-payload"])
+
+
 def run(tier, seed, replay=None):
     run = Run("C11", tier, seed, RULE)
     drv = Driver()
@@ -210,6 +232,7 @@ def run(tier, seed, replay=None):
         for _ in range(100 if tier == "quick" else 1000):
             run_case(run, drv, run.rng.randrange(10 ** 9))
         hostile_names(run, drv, run.rng)
+        empty_payloads(run, drv, run.rng)
     for (case, uri), req, out in drv.run():
         if out.startswith("ERR"):
             if os.environ.get("VERIF_DEV") and "bad-op" in out:
